@@ -477,7 +477,7 @@ class Engine:
         if isinstance(fn, ClassVal):
             return self.instantiate(fn, args, kwargs, node=node)
         if isinstance(fn, ExtClass):
-            ctor = fn.ns.get("__call__")
+            ctor, _ = fn.lookup("__construct__")
             if ctor is None:
                 raise Unsupported(f"constructing external class {fn.name}")
             return ctor.fn(self, fn, *args, **kwargs)
@@ -1512,7 +1512,7 @@ class Engine:
         from . import torchmodel
 
         if isinstance(obj, Obj):
-            cv, owner = obj.cls.lookup(name) if isinstance(obj.cls, (ClassVal,)) else (obj.cls.ns.get(name), obj.cls)
+            cv, owner = obj.cls.lookup(name)
             if isinstance(cv, Closure) and cv.kind == "property":
                 return self.call(cv, [obj], {}, node=node)
             if name in obj.fields:
